@@ -444,6 +444,9 @@ def _run(ctx, nscen, max_points, nlocal, rep):
     # (before or after it), and single OSErrors out of directory scans; afterwards everything visible must be whole and usable
     from harness import cli_hist
     cli_hist.run_scenarios(ctx, rep, {'kill': max(4, nscen), 'oserror': max(2, nscen // 2)}, CLI_MINE)
+    # permanent failures inside the remote adapters (B2 by name / by id, S3-compatible; fake services answering 401/403/5xx for good)
+    from harness import remote_hist
+    remote_hist.remote_fault_probe(ctx, rep, ('referenced_chunk_missing', 'restore_mismatch', 'unknown_object', 'exception'), n=max(10, nscen * 2))
     if cases:
         traces, err = repo_hist.model_eval(cases)
         if traces is None:
@@ -476,6 +479,12 @@ def replay(ctx, obj):
         return rc
     rep = Report(rule=RULE)
     r = obj.get('replay') or {}
+    if r.get('probe') in ('remote', 'remote_fault'):
+        from harness import remote_hist
+        remote_hist.remote_fault_probe(ctx, rep, ('referenced_chunk_missing', 'restore_mismatch', 'unknown_object', 'exception'), n=40)
+        for v in rep.violations:
+            print('VIOLATION-REPRODUCED', v['what'])
+        return 1 if rep.violations else 0
     if 'seed' in r:
         wd = ctx.scratch / 'replay'
         wd.mkdir()
